@@ -170,3 +170,18 @@ func VerifKwWrapLengths() {
 	zzverif.Assert(w == nil, "wrap_bad_length_no_output")
 	zzverif.Cover("aeskw_wrap_lengths_done")
 }
+
+// Long key data: the step counter t = n*j+i of RFC 3394 is a 64-bit big-endian value; with n = 43 blocks it exceeds
+// one byte (6n = 258). Wrap must still equal the reference (compared as terms over the same ideal cipher).
+//
+//verif:harness prop=C03 name=aeskw_wrap_rfc3394_long unwind=300 witness=off solver=z3-new incr=off qtimeout=60
+func VerifWrapRefLong() {
+	n := 43
+	blk := vBlock{key: zzverif.Bytes("kek", 16)}
+	cek := zzverif.Bytes("cek", n*8)
+	w, err := Wrap(blk, cek)
+	zzverif.Assert(err == nil, "wrap_ok")
+	zzverif.Assert(len(w) == (n+1)*8, "wrap_len")
+	zzverif.Assert(zzverif.EqBytes(w, refWrap(blk, cek)), "wrap_equals_rfc3394_long_input")
+	zzverif.Cover("aeskw_wrap_long_done")
+}
